@@ -25,16 +25,26 @@ CHECKS = {
         note="Encoders/decoders are modelled by hand (Model/Encode.lean) and tied by correspondence; tables are verified "
              "against the source on every run."),
     "C01": dict(
-        technique="Lean 4 proof of the shortcut layers (perfect-hash scheme lookup over regenerated tables) + "
-                  "WPT-validated Lean Spec of the basic URL parser run against the code (correspondence)",
+        technique="Lean 4 proof: the path builder of the parser (model of helpers::parse_prepared_path: signature, trivial / "
+                  "fast / general code paths, shorten_path, hash-table dot-segment tests, drive letters) equals the Standard's "
+                  "path state for every input; perfect-hash scheme lookup over regenerated tables; models tied to the code call "
+                  "by call; WPT-validated Lean Spec of the basic URL parser run against both URL types (correspondence)",
         text="Lean 4: a structured transcription of the WHATWG basic URL parser, host parsers and serializer (Spec/Url.lean, "
-             "Spec/Host.lean) validated on every run against all WPT url vectors; theorems prove for all byte strings that "
-             "ada's perfect-hash scheme lookup (generated key tables) equals list lookup. Both URL types are compared with "
-             "the Spec on generated (input, base) pairs: href, all getters, origin, opaque flag. State-machine conformance "
-             "itself rests on that correspondence (differential, generator-bounded), not on a theorem.",
-        design_ref="DESIGN.md §5 C01",
-        note="Spec.parse is a hand transcription of the Standard (trusted, validated by WPT); parse_url_impl is compared, "
-             "not modelled. IDNA answers inside the Spec come from ada::idna (C06)."),
+             "Spec/Host.lean) validated on every run against all WPT url vectors. Theorems for all byte strings: "
+             "path_builder_is_path_state - Model/PathPrepared.lean (statement-by-statement model of "
+             "helpers::parse_prepared_path with path_signature's 8-byte unrolled OR over the regenerated table, the trivial "
+             "shortcut incl. its '/.' scan, the fast loop, the general loop with percent_encode<false>, shorten_path, "
+             "is_double_dot_path_segment's hash table, is_windows_drive_letter) produces the serialisation of "
+             "Spec.pathSegments over the input's segments, for every input, scheme type and path so far (1400 lines); the same "
+             "for url_aggregator::consume_prepared_path in C07; ada's perfect-hash scheme lookup equals list lookup. L1: the "
+             "Lean path builder is run against the real function (and both shorten_path overloads against each other) on "
+             "generated calls. Both URL types are compared with the Spec on generated (input, base) pairs: href, all getters, "
+             "origin, opaque flag.",
+        design_ref="DESIGN.md §5 C01, §11.3",
+        note="partial: of parse_url_impl the path builder, the scheme lookup (and, in C08, the can_parse scanner; in C10, host "
+             "round trips) are modelled and proved; the state machine around them and try_parse_simple_absolute are compared "
+             "with the Spec, not modelled. Spec.parse is a hand transcription of the Standard (trusted, validated by WPT). "
+             "IDNA answers inside the Spec come from ada::idna (C06)."),
 
     "C03": dict(
         technique="Lean 4 proof on the Spec of the API setters (invariant preservation, refusals, atomic-failure model) + "
@@ -95,8 +105,9 @@ CHECKS = {
              "layout(edited content) (so the offsets keep partitioning the buffer and only the named component changes), "
              "that all branches of replace_and_resize agree, that the uint32 wrap-around shifts equal the integer shifts "
              "below 2^32, getters/size/re-assembly on laid-out URLs, the lift to every admissible history of editor calls, "
-             "and that the layout is the Standard's serialisation and the component setters refine the Standard's setters "
-             "(Spec/Setters). The preconditions the proofs forced are explicit decidable predicates. L1: every real editor "
+             "that the layout is the Standard's serialisation and the component setters refine the Standard's setters "
+             "(Spec/Setters), and that consume_prepared_path (the buffer's own path builder, Model/AggPath.lean) commutes "
+             "with the layout and computes the Standard's path state. The preconditions the proofs forced are explicit decidable predicates. L1: every real editor "
              "is called directly and the Lean editor applied to the implementation's pre-state must reproduce its "
              "post-state; Shape and getters are evaluated by the driver on every state. L2/L3: after every operation of "
              "generated parse/set_*/clear_*/copy histories the offsets must partition the href, getters equal their slices, "
